@@ -49,6 +49,17 @@ Theorem C10_autoindex_numbering : forall ct,
 Proof. exact new_create_table_numbering. Qed.
 Print Assumptions C10_autoindex_numbering.
 
+(* the primary key of a WITHOUT ROWID table as interpreted (dedup_pk: `PRIMARY KEY(a, b, a)` counts a once, but
+   `(a COLLATE nocase, a)` keeps both): the key's columns are pairwise different in (name, collation), every column the
+   statement wrote is represented by one with the same name and collation, and nothing is invented *)
+Theorem C10_primary_key_columns_once : forall pk,
+  let r := dedup_pk pk [] in
+  (forall i j x y, nth_error r i = Some x -> nth_error r j = Some y -> i <> j -> same1 x y = false) /\
+  (forall c, In c pk -> exists d, In d r /\ same1 d c = true) /\
+  (forall d, In d r -> In d pk).
+Proof. exact dedup_pk_ok. Qed.
+Print Assumptions C10_primary_key_columns_once.
+
 (* the rules as evaluated by the model on the statements that exposed the repaired defects *)
 Example C10_rowid_alias_rule :
   is_rowid false "INTEGER" false = true /\ is_rowid false "integer" true = false /\ is_rowid true "Integer" true = true /\ is_rowid true "INT" false = false.
